@@ -77,6 +77,15 @@ def tasks(tier):
         cfg = dict(M=4, per_class=pc, max_unknown=mu, alphabet=["ok", "x:U", "x:T", "r:U"],
                    sleeper="policy")
         out.append({"family": "permit-sugar", "cfg": cfg, "entry": e, "bound": 0})
+    # an attempt fails inside its on_attempt_start hook: whatever the entry point makes of that,
+    # a run of max_attempts M consults the strategy / sleeps / takes a token at most M-1 times
+    for M, idx, bud, e in itertools.product([2, 3], [0, 1, 2], [None, {"max": 3, "window": 8}],
+                                            Q4 + ["Policy.execute", "AsyncPolicy.execute"]):
+        if idx >= M:
+            continue
+        cfg = dict(M=M, alphabet=["ok", "x:T", "r:T"], attempt_hooks="call", max_unknown=None,
+                   budget=bud, faults=[("astart", idx, "RuntimeError")], strat_menu=[1])
+        out.append({"family": "permit-hook-fault", "cfg": cfg, "entry": e, "bound": 0})
     # another user of the shared budget takes a token while the library is inside a callback
     for M, bud, e in itertools.product([2, 3], [{"max": 1, "window": 8}, {"max": 2, "window": 8}],
                                        Q4):
@@ -124,7 +133,27 @@ GRANT_KEY = "c03.wasted-backoff"
 F1_KEY = "c03.final-attempt-grant"
 
 
+def monitor_final(w, cfg):
+    """No retry is granted after the final permitted attempt, however that attempt failed."""
+    v = []
+    M = cfg["M"]
+    for call in split_calls(w.trace):
+        for kind, what in (("strategy", "strategy consultations"), ("sleep", "backoff sleeps"),
+                           ("consume", "budget tokens taken")):
+            n = sum(1 for r in call.records if r[0] == kind and (kind != "consume" or r[1]))
+            if n > M - 1:
+                v.append(("c03.retry-after-final-attempt",
+                          f"{n} {what} in a run with max_attempts={M}"))
+        retries = sum(1 for r in call.records if r[0] == "metric" and r[1] == "retry")
+        if retries > M - 1:
+            v.append(("c03.retry-after-final-attempt",
+                      f"{retries} retry events in a run with max_attempts={M}"))
+    return v
+
+
 def monitor(w, cfg):
+    if any(f[0] == "astart" for f in cfg["faults"] or ()):
+        return monitor_final(w, cfg)
     v = []
     D = deadline_s(cfg)
     budget = BudgetRef(cfg)
